@@ -65,17 +65,24 @@ func (p *Paragraph) WriteTo(out io.Writer) error {
 		 * continuation lines, which are indented by one space. A blank
 		 * continuation line would end the paragraph, so it's written
 		 * as " ." instead. */
-		value := lines[0]
-		for _, line := range lines[1:] {
+		field := key + ": " + lines[0]
+		rest := lines[1:]
+		if strings.HasPrefix(lines[0], " ") || strings.HasPrefix(lines[0], "\t") {
+			/* Blanks after the colon aren't part of the value, so a first
+			 * line that starts with one can't go next to the key. Such a
+			 * value is read from continuation lines only, so that's how
+			 * it's written. */
+			field = key + ":"
+			rest = lines
+		}
+		for _, line := range rest {
 			if strings.TrimSpace(line) == "" {
 				line = "."
 			}
-			value = value + "\n " + line
+			field = field + "\n " + line
 		}
 
-		if _, err := out.Write(
-			[]byte(fmt.Sprintf("%s: %s\n", key, value)),
-		); err != nil {
+		if _, err := out.Write([]byte(field + "\n")); err != nil {
 			return err
 		}
 	}
